@@ -44,6 +44,12 @@ func replayNative(rec *replayFile) (kind string, reproduced bool, note string) {
 		ok, n := replayEngine(rec)
 		return "engine", ok, n
 	}
+	if rec.Params["map_order"] != 0 {
+		// the counterexample depends on Go's unspecified map iteration order, which a native run
+		// cannot be forced to follow: the deterministic engine re-execution is the replay of record
+		ok, n := replayEngine(rec)
+		return "engine", ok, n + " (depends on map iteration order)"
+	}
 	if hs := findSpec(rec); hs != nil && len(hs.spec.Overrides) > 0 {
 		// the harness runs with function overrides (uninterpreted stubs) that have no native
 		// counterpart: the deterministic engine re-execution is the replay of record
